@@ -163,6 +163,13 @@ def values_for(attrs: list, ident: int, fmt: str) -> dict:
     r = random.Random(ident * 1000003 + 17)
     vals = {}
     for a in attrs:
+        if a["dtype"] in ("bytes", "str"):
+            # variable-size attribute: printable, NUL-free (codec fidelity of
+            # odd byte strings is C01's business, not ours)
+            text = "".join(r.choice("abcdefghijklmnopqrstuvwxyz0123456789")
+                           for _ in range(r.randrange(1, 9)))
+            vals[a["name"]] = text if a["dtype"] == "str" else text.encode()
+            continue
         dt = np.dtype(a["dtype"])
         shape = tuple(a["shape"])
         if a["name"] == "id":
@@ -192,10 +199,25 @@ def canon(example, attrs: list):
     out = []
     for a in attrs:
         v = example[a["name"]]
+        if a["dtype"] in ("bytes", "str"):
+            if isinstance(v, np.ndarray) and v.shape == ():
+                v = v.item()
+            if isinstance(v, (bytes, np.bytes_)):
+                out.append(bytes(v))
+            elif isinstance(v, str):
+                out.append(v.encode("utf-8"))
+            else:
+                out.append(("type", type(v).__name__))
+            continue
         arr = np.asarray(v)
         dt = np.dtype(a["dtype"])
         if arr.dtype != dt:
-            arr = arr.astype(dt)
+            try:
+                arr = arr.astype(dt)
+            except (ValueError, TypeError):
+                # an accepted odd value (foreign dtype): not comparable
+                out.append(("unconvertible", str(arr.dtype)))
+                continue
         if tuple(arr.shape) != tuple(a["shape"]):
             out.append(("shape", tuple(arr.shape)))
             continue
@@ -237,8 +259,20 @@ def bad_values(attrs: list, w: dict, fmt: str) -> dict:
     a = attrs[w.get("bad_attr", 0) % len(attrs)]
     name = a["name"]
     shape = tuple(a["shape"])
-    dt = np.dtype(a["dtype"])
     kind = w["bad"]
+    if a["dtype"] in ("bytes", "str"):
+        if kind == "missing":
+            del vals[name]
+        elif kind == "extra":
+            vals["surplus_attribute"] = np.zeros((1,), dtype=np.int8)
+        elif kind in ("foreign_dtype", "unsafe_dtype", "unsafe_dtype_fb"):
+            vals[name] = np.arange(3, dtype=np.float32)
+        elif kind == "container":
+            vals[name] = [b"a", b"bc"]
+        else:
+            vals[name] = 12345
+        return vals
+    dt = np.dtype(a["dtype"])
     if kind == "unsafe_dtype_fb":
         kind = "unsafe_dtype" if fmt == "fb" else "shape"
     if kind == "extra_tfrec":
@@ -389,6 +423,8 @@ class HistoryRunner:
         self.on_write = on_write
         self.bad_values = bad_values or globals()["bad_values"]
         self.rejected: list = []
+        self.rejected_good: list = []
+        self.tolerate_rejected_good = False
         self.accepted_bad: list = []
         self.session_no = -1
         self.multi_results: list = []
@@ -421,8 +457,16 @@ class HistoryRunner:
                 if self.on_write:
                     self.on_write(w)
                 continue
-            filler.write_example(values=values_for(attrs, w["id"], fmt),
-                                 split=w["split"], **kw)
+            try:
+                filler.write_example(values=values_for(attrs, w["id"], fmt),
+                                     split=w["split"], **kw)
+            except Exception as e:  # pylint: disable=broad-except
+                if not self.tolerate_rejected_good:
+                    raise
+                # (C18: a declaration the format does not support may make
+                # it reject every write; that is a legitimate rejection)
+                self.rejected_good.append((w["id"], type(e).__name__))
+                continue
             self.model.write(w["split"], w["id"], session, writer, snap)
             if self.on_write:
                 self.on_write(w)
